@@ -188,7 +188,10 @@ class Load(Suite):
                 req = decorate(rng, req)
             else:
                 req = decorate(rng, rng.choice(present))
-            cases.append({"bucket": bucket, "kind": rng.choice(["bound", "bound", "chroot"]), "strict": rng.random() < 0.25,
+            via = "http" if rng.random() < 0.12 else "loader"
+            if via == "http" and rng.random() < 0.3:
+                req = rng.choice(["file://@T@/out/repo.git", "file:///@T@/out/wt", "ssh://h/@T@/out/repo.git", "h:../out/repo.git", "a.git/../../out/repo.git"])
+            cases.append({"bucket": bucket if via == "loader" else "http", "via": via, "kind": rng.choice(["bound", "bound", "chroot"]), "strict": rng.random() < 0.25,
                           "tree": [{"p": p.encode().hex(), "k": k, "c": c.hex()} for p, k, c in es], "req": req.encode().hex()})
         return cases
 
@@ -199,7 +202,7 @@ class Load(Suite):
         return bytes.fromhex(hx).replace(b"@T@", self.T.encode())
 
     def model_expr(self, c):
-        if self.has_link(c):
+        if self.has_link(c) or c.get("via") == "http":
             return None
         tree = coq_list(['(%s, %s)' % (coq_hex(bytes.fromhex(e["p"])), "None" if e["k"] == "d" else "Some %s" % coq_hex(self.sub(e["c"])))
                          for e in c["tree"]])
@@ -230,6 +233,13 @@ class Load(Suite):
             if r.get("panic") or not r["out"].startswith("( ok"):
                 continue
             ex = r.get("extra") or {}
+            if c.get("via") == "http":
+                bad = [p for p in (ex.get("touched") or []) if not under(p, R)]
+                if "outside" in (ex.get("http_body") or ""):
+                    fails[c["id"]] = "backend/http served HEAD of the sentinel repository outside the root for request path %r" % bytes.fromhex(c["req"])
+                elif bad:
+                    fails[c["id"]] = "the loader (via backend/http) probed %r outside its root" % bad[0]
+                continue
             root = ex.get("root", "")
             if not under(root, R):
                 fails[c["id"]] = "served root %r is not under the loader root" % root
